@@ -302,6 +302,18 @@ MORE = {
                   'of a body without nested calls changes nothing (C08_nest_nothing_on_raise); an inner call that returned stays committed when the outer body raises '
                   '(C08_nest_all_or_nothing_refuted: open finding nested_commit_survives_outer_rollback).',
              note=' The nested model is for one caller (the multi-thread machine knows no nesting); the two models are tied on flat bodies through the correspondence only.'),
+ 'C09': dict(text=' The caching mode is a parameter of the model: on a cache=False connection (doCache False) get/put/created/expire/expireAll/getAll take their own branches through '
+                  'the weak dict; every theorem is stated for both modes (C09_inv_modes_partial, C09_safe_modes_partial, C09_quiescent_modes_partial, C09_no_deadlock_modes_partial, '
+                  'C09_mode_invariant, C09_nocache_never_purges), the created()-versus-get race is shown for cache=False as well (C09_created_vs_get_nocache_refuted), and the '
+                  'scheduler explores three cache=False worlds exhaustively.',
+             note=' For cache=False the guard carries one unproved assumption (a weak entry seen dead under the lock is still there and dead when get deletes it), '
+                  'checked before every replayed step of the correspondence.'),
+ 'C19': dict(text=' The flush and discard points of a lazy instance are operations of the model: pickling and sync() deliver exactly what syncUpdate() delivers, expire() delivers '
+                  'nothing, writes nothing and drops the queue for good, later operations still deliver theirs (C19_pickle_is_syncUpdate, C19_sync_is_syncUpdate, '
+                  'C19_flush_exactly_once_in_order, C19_expire_silent, C19_expired_queue_never_written, C19_after_expire_in_order); updates of instances of an inheritance '
+                  'chain are modelled as the generated setters perform them (C19_chain_update_as_the_setters_do, C19_chain_update_partial for columns the instance\'s own class '
+                  'declares, C19_inherit_created_after_all_levels_mixed); for inherited columns the property fails (C19_chain_update_refuted: open finding '
+                  'inheritable_child_update_events).'),
  'C11': dict(text=' Every query is also judged on a per-call connection= (keyword or .connection(c) anywhere in the chain) to a second, file-backed database with decoy rows '
                   'in the class\'s own one, and through a Transaction holding uncommitted inserts/updates/deletes: every operation depends only on the rows visible through '
                   'the bound connection, clones keep the binding, the last binding wins, count/aggregates/getOne are coherent with any list the bound select may return '
